@@ -98,6 +98,9 @@ func NewWorld(l *fedgen.Layout, seed uint64) (*World, error) {
 	for _, k := range l.KeyScalars {
 		w.U.KeyScalars[k] = true
 	}
+	for _, k := range l.SameN {
+		w.U.SameN[k] = true
+	}
 	for _, s := range l.Subs {
 		sc, err := LoadSub(s.SDL)
 		if err != nil {
